@@ -170,6 +170,9 @@ func (t *Target) handle(w http.ResponseWriter, r *http.Request) {
 	t.mu.Unlock()
 
 	hit := sc.At == k
+	if sc.Kind == "rowmod" { // content-driven: the row rendered into the URI has parity At
+		hit = e.At == "uri" && e.Val.T == "r" && e.Val.N%2 == sc.At
+	}
 	if hit && sc.Kind == "transport" {
 		// a status line, then the connection dies: the client has read bytes of a response, so the
 		// transport does not transparently retry the request on a fresh connection
@@ -214,7 +217,7 @@ func (t *Target) handle(w http.ResponseWriter, r *http.Request) {
 		return
 	}
 	status := 200
-	if hit && sc.Kind == "status" {
+	if hit && (sc.Kind == "status" || sc.Kind == "rowmod") {
 		status = 418
 	}
 	switch r.Header.Get("X-Cap") {
